@@ -539,7 +539,9 @@ func (fr *frame) execInstr(ins ssa.Instruction, st *State, reach string, xedges 
 	case *ssa.Store:
 		addr := fr.get(t.Addr)
 		v := fr.get(t.Val)
+		fr.siteAsserts(t, nil, st, reach, false)
 		fr.store(addr, t.Addr, v, t.Val.Type(), st, reach, t.Pos())
+		fr.siteAsserts(t, nil, st, reach, true)
 	case *ssa.MapUpdate:
 		m := fr.term(t.Map)
 		mt := t.Map.Type().Underlying().(*types.Map)
@@ -767,7 +769,7 @@ func (fr *frame) lookup(t *ssa.Lookup, st *State, reach string) {
 		in := ft.define("inmap", SBool, and(not(eq(x.S, "null")), sel(sel(ft.heapTerm(st, dom), x.S), k.S)))
 		v := ft.define("mapval", vs, ite(in, sel(sel(ft.heapTerm(st, val), x.S), k.S), u.zero(xt.Elem()).S))
 		vt := Term{v, vs}
-		ft.assumeAllocated(st, reach, vt)
+		ft.assumeAllocatedIn(st, reach, vt, val)
 		if t.CommaOk {
 			fr.vals[t] = Val{Tuple: []Val{{T: vt}, {T: Term{in, SBool}}}}
 		} else {
@@ -801,7 +803,7 @@ func (fr *frame) unop(t *ssa.UnOp, st *State, reach string) {
 			name = fv.Name()
 		}
 		vt := Term{ft.define(name, v.Sort, v.S), v.Sort}
-		ft.assumeAllocated(st, reach, vt)
+		ft.assumeAllocatedIn(st, reach, vt, lv.Heap)
 		if ft.e.elemNonNil(lv, t.Type()) {
 			ft.assume(reach, not(eq(vt.S, "null")))
 		}
@@ -1274,10 +1276,11 @@ func (ft *FT) bytesStr(st *State, x Term) Term {
 }
 
 // siteAsserts: "assert at \"text\"#k EXPR" clauses bound to call instructions.
-func (fr *frame) siteAsserts(call *ssa.Call, args []Val, st *State, reach string, after bool) {
-	if fr.fc == nil || len(fr.fc.Asserts) == 0 {
+func (fr *frame) siteAsserts(site ssa.Instruction, args []Val, st *State, reach string, after bool) {
+	if fr.fc == nil || len(fr.fc.Asserts) == 0 || !site.Pos().IsValid() {
 		return
 	}
+	call, _ := site.(*ssa.Call)
 	ft := fr.ft
 	e := ft.e
 	for _, a := range fr.fc.Asserts {
@@ -1285,14 +1288,28 @@ func (fr *frame) siteAsserts(call *ssa.Call, args []Val, st *State, reach string
 			continue
 		}
 		if a.Occ == -1 {
-			if !fr.isAssertSite(a, call) {
+			if !fr.isAssertSite(a, site) {
 				continue
 			}
-		} else if target := fr.assertTarget(a); target != call {
+		} else if target := fr.assertTarget(a); target != site {
 			continue
 		}
-		env := fr.ownEnv(st, fr.entry, call.Block())
-		if after {
+		// loopold(e) in a site clause: the innermost loop around the statement
+		savedLE, savedLP := fr.curLoopEntry, fr.curLoopEntryPhis
+		if fr.loops != nil {
+			var inner *loop
+			for _, lp := range fr.loops.headers {
+				if lp != nil && lp.entryState != nil && lp.body[site.Block()] && (inner == nil || len(lp.body) < len(inner.body)) {
+					inner = lp
+				}
+			}
+			if inner != nil {
+				fr.curLoopEntry, fr.curLoopEntryPhis = inner.entryState, inner.entryPhis
+			}
+		}
+		restoreLE := func() { fr.curLoopEntry, fr.curLoopEntryPhis = savedLE, savedLP }
+		env := fr.ownEnv(st, fr.entry, site.Block())
+		if after && call != nil {
 			// the value returned by the call (the statement's assignment has not happened yet)
 			_, isTuple := call.Type().(*types.Tuple)
 			if rv, ok := fr.vals[call]; ok && rv.Tuple == nil && !isTuple && rv.T.S != "" {
@@ -1300,12 +1317,13 @@ func (fr *frame) siteAsserts(call *ssa.Call, args []Val, st *State, reach string
 			}
 		}
 		for i, v := range args {
-			if i < len(call.Call.Args) {
+			if call != nil && i < len(call.Call.Args) {
 				env.vars[fmt.Sprintf("arg%d", i)] = SVal{T: ft.termOf(v, call.Call.Args[i].Type()), Typ: call.Call.Args[i].Type()}
 			}
 		}
 		if a.Kind == "assign" {
 			v, err := env.eval(a.E)
+			restoreLE()
 			if err != nil {
 				e.contractError(a, err)
 				continue
@@ -1314,6 +1332,7 @@ func (fr *frame) siteAsserts(call *ssa.Call, args []Val, st *State, reach string
 			continue
 		}
 		goal, err := env.evalBool(a.E)
+		restoreLE()
 		if err != nil {
 			e.contractError(a, err)
 			continue
@@ -1323,12 +1342,12 @@ func (fr *frame) siteAsserts(call *ssa.Call, args []Val, st *State, reach string
 			ft.assumed["ASSUME at "+a.Site+": "+a.Text] = true
 			continue
 		}
-		fr.oblig("assert", a.Props, call.Pos(), a.name(), reach, goal)
+		fr.oblig("assert", a.Props, site.Pos(), a.name(), reach, goal)
 	}
 }
 
 // isAssertSite: for "#*" clauses - call is the chosen call of some source line containing the text.
-func (fr *frame) isAssertSite(a *Clause, call *ssa.Call) bool {
+func (fr *frame) isAssertSite(a *Clause, call ssa.Instruction) bool {
 	e := fr.ft.e
 	if !call.Pos().IsValid() || !strings.Contains(e.sourceLine(call.Pos()), a.Site) {
 		return false
@@ -1348,13 +1367,25 @@ func (fr *frame) isAssertSite(a *Clause, call *ssa.Call) bool {
 	return false
 }
 
-func (fr *frame) assertTarget(a *Clause) *ssa.Call {
+func (fr *frame) assertTarget(a *Clause) ssa.Instruction {
 	e := fr.ft.e
-	var cands []*ssa.Call
+	var cands []ssa.Instruction
+	callLine := map[int]bool{}
 	for _, b := range fr.fn.Blocks {
 		for _, ins := range b.Instrs {
 			if c, ok := ins.(*ssa.Call); ok && c.Pos().IsValid() {
 				if strings.Contains(e.sourceLine(c.Pos()), a.Site) {
+					cands = append(cands, c)
+					callLine[e.fset.Position(c.Pos()).Line] = true
+				}
+			}
+		}
+	}
+	// a plain assignment (no call on its line) binds to its store instruction
+	for _, b := range fr.fn.Blocks {
+		for _, ins := range b.Instrs {
+			if c, ok := ins.(*ssa.Store); ok && c.Pos().IsValid() {
+				if ln := e.fset.Position(c.Pos()).Line; !callLine[ln] && strings.Contains(e.sourceLine(c.Pos()), a.Site) {
 					cands = append(cands, c)
 				}
 			}
@@ -1365,7 +1396,7 @@ func (fr *frame) assertTarget(a *Clause) *ssa.Call {
 	// outermost = the one whose position is the '(' matching the text; use
 	// the last call on the first matching line for occurrence k.
 	var lines []int
-	byLine := map[int][]*ssa.Call{}
+	byLine := map[int][]ssa.Instruction{}
 	for _, c := range cands {
 		ln := e.fset.Position(c.Pos()).Line
 		if _, ok := byLine[ln]; !ok {
@@ -1385,9 +1416,14 @@ func (fr *frame) assertTarget(a *Clause) *ssa.Call {
 	}
 	l := byLine[lines[a.Occ-1]]
 	// choose the call whose callee name occurs (first) in the site text, else the last
-	var best *ssa.Call
+	var best ssa.Instruction
 	bestAt := -1
-	for _, c := range l {
+	for _, ci := range l {
+		c, ok := ci.(*ssa.Call)
+		if !ok {
+			// a line of stores only: the first store
+			return l[0]
+		}
 		name := ""
 		if sc := c.Call.StaticCallee(); sc != nil {
 			name = sc.Name()
@@ -1542,4 +1578,13 @@ func sameLoadedValue(a, b ssa.Value) bool {
 		}
 	}
 	return true
+}
+
+// isSiteInstr: instructions a site clause ("assert at ...") can bind to.
+func (fr *frame) isSiteInstr(ins ssa.Instruction) bool {
+	switch ins.(type) {
+	case *ssa.Call, *ssa.Store:
+		return ins.Pos().IsValid()
+	}
+	return false
 }
